@@ -22,9 +22,9 @@ func init() {
 	All["c16"] = c16
 }
 
-var hostileIDs = []string{"1234", "a/b", "../x", "..", ".", "/", "//", "a/../../b", ".hidden", "x.json", "x.yaml", "id with space", "../../etc/cdi/evil", "a.b.c", "trailing/", "UPPER_lower-09", "x.json/y", strings.Repeat("long", 30)}
+var hostileIDs = []string{"1234", "cfg_json", "idyaml", "json", "yaml", "a/b", "../x", "..", ".", "/", "//", "a/../../b", ".hidden", "x.json", "x.yaml", "id with space", "../../etc/cdi/evil", "a.b.c", "trailing/", "UPPER_lower-09", "x.json/y", strings.Repeat("long", 30)}
 var c16Vendors = []string{"vendor.com", "acme.org", "v", "x-y.z_1", "a.b.c"}
-var c16Classes = []string{"gpu", "c", "net.json", "blk.yaml", "a.b", "x_y"}
+var c16Classes = []string{"gpu", "c", "net.json", "blk.yaml", "a.b", "x_y", "devjson", "net-yaml", "json", "yaml"}
 
 type c16Written struct {
 	name string
